@@ -78,6 +78,8 @@ def member(draw, idx):
     kind = draw(st.sampled_from(["visor-file", "visor-file", "visor-file", "visor-dir", "visor-empty", "std-file", "std-dir", "std-symlink", "std-empty"]))
     depth = draw(st.integers(1, 3))
     name = "/".join(draw(st.sampled_from(NAME_PARTS)) for _ in range(depth)) + f"_{idx}"
+    # stored names are listed as stored: a leading "./", doubled slashes, dot components (a standard tar reader does not tidy them)
+    name = draw(st.sampled_from(["", "", "", "", "./", ".//", "a/../", "./a/./", "b//"])) + name
     longname = draw(st.sampled_from([None, None, None, "gnu", "pax", "ustar-prefix", "pax-solaris"]))
     if longname in ("gnu", "pax", "pax-solaris"):
         name = "/".join(["d" * 30] * draw(st.integers(4, 8))) + "/" + name
@@ -127,7 +129,7 @@ def archive_spec(draw, tier):
         end_blocks = 2  # without an end-of-archive marker a payload that is itself a tar archive would legitimately read on as headers
     return {"members": members, "data_order": list(order), "align": align,
             "gap": draw(st.sampled_from([0, 0, 1, 5000, 70000])), "end_blocks": end_blocks,
-            "trailing": draw(st.sampled_from([0, 0, 512, 10240, 100])), "gzip": draw(st.booleans()), "via": draw(st.sampled_from(["fileobj", "fileobj", "name", "tempfile", "minimal"])),
+            "trailing": draw(st.sampled_from([0, 0, 512, 10240, 100])), "gzip": draw(st.booleans()), "via": draw(st.sampled_from(["fileobj", "fileobj", "name", "tempfile", "minimal", "raw-shared"])),
             # the data area far behind the headers: recorded offsets around and above 2^31 (uncompressed archives, sparse handle)
             "far": draw(st.sampled_from([0, 0, 0, 0, 0x7FFFF000, 0x80000000, 0xC0000000, 0xFFF00000])),
             # bytes in front of the archive inside the same file; the handle is handed over positioned at the archive's start
@@ -298,11 +300,32 @@ def read_all_dropping(open_fn):
                 f.close()
 
 
+BY_NAME: list = []  # discrepancies between access by TarInfo and access by member name, reset by check()
+
+
 def read_all(t):
     res = []
-    for m in t.getmembers():
+    members = t.getmembers()
+    for m in members:
         f = t.extractfile(m) if m.isreg() else None  # isreg(): REGTYPE, AREGTYPE, CONTTYPE
         res.append((m.name, m.type, m.size, f.read() if f is not None else None, m.linkname))
+    # the same members looked up by name (names that occur once): getmember(name) / extractfile(name) answer from this archive
+    counts = {}
+    for m in members:
+        counts[m.name] = counts.get(m.name, 0) + 1
+    for m, r in list(zip(members, res))[:6]:
+        if counts[m.name] != 1:
+            continue
+        try:
+            m2 = t.getmember(m.name)
+            if (m2.name, m2.size, m2.offset, getattr(m2, "offset_data", None)) != (m.name, m.size, m.offset, getattr(m, "offset_data", None)):
+                BY_NAME.append(f"getmember({m.name!r}) is not the listed member")
+            elif m.isreg():
+                f2 = t.extractfile(m.name)
+                if f2.read() != r[3]:
+                    BY_NAME.append(f"extractfile({m.name!r}) by name returned other bytes than extractfile(member)")
+        except KeyError:
+            BY_NAME.append(f"getmember({m.name!r}) raised KeyError for a listed member")
     return res
 
 
@@ -378,6 +401,40 @@ def check(spec) -> Outcome:
                 return read_all(t)
             finally:
                 t.close()
+        if spec.get("via") == "raw-shared" and not far and not prefix and not spec["gzip"]:
+            # an unbuffered raw file (open(..., buffering=0)) that two readers share, their chunked member reads interleaved
+            d = tempfile.mkdtemp(prefix="c20-", dir="/dev/shm" if os.path.isdir("/dev/shm") else None)
+            try:
+                p = os.path.join(d, "shared.v00")
+                with open(p, "wb") as f:
+                    f.write(blob)
+                with open(p, "rb", buffering=0) as h:
+                    t1 = vmtar.open(fileobj=h)
+                    h.seek(0)
+                    t2 = vmtar.open(fileobj=h)
+                    m1, m2 = t1.getmembers(), t2.getmembers()
+                    res = []
+                    for a, b in zip(m1, reversed(m2)):
+                        fa = t1.extractfile(a) if a.isreg() else None
+                        fb = t2.extractfile(b) if b.isreg() else None
+                        da, db = b"", b""
+                        while True:
+                            ca = fa.read(5000) if fa is not None else b""
+                            cb = fb.read(3000) if fb is not None else b""
+                            h.seek(len(da) % 977)  # the caller moves its handle as well
+                            da += ca
+                            db += cb
+                            if not ca and not cb:
+                                break
+                        res.append((a.name, a.type, a.size, da if fa is not None else None, a.linkname))
+                        ob = next((r for r in res if r[0] == b.name and r[3] is not None), None)
+                        if fb is not None and ob is not None and ob[3] != db and sum(1 for x in m2 if x.name == b.name) == 1:
+                            BY_NAME.append(f"member {b.name!r} read through the second of two readers sharing a raw handle differs")
+                    t1.close()
+                    t2.close()
+                    return res
+            finally:
+                shutil.rmtree(d, ignore_errors=True)
         if spec.get("via") == "tempfile" and not far and not prefix:
             # an anonymous temporary file: a handle whose .name is an integer (a file descriptor), not a path
             with tempfile.TemporaryFile() as tf:
@@ -401,10 +458,13 @@ def check(spec) -> Outcome:
         finally:
             t.close()
 
+    BY_NAME.clear()
     got, err = lib_delegating("vmtar.py:open(tarfile)", run)
     if err:
         out.fail(err.sig("vmtar"), f"vmtar.open / extract raised {err.describe()}")
         return out
+    if BY_NAME:
+        out.fail("mismatch|lookup-by-name", BY_NAME[0])
     names = [(n, t, s) for n, t, s, _d, _l in got]
     exp_names = [(n, t, s) for n, t, s, _d in expected]
     if names != exp_names:
